@@ -188,6 +188,9 @@ def scan_coverage_rule(ctx: Ctx, rule: str) -> None:
         elif norm.implies(conds, norm.conj([norm.neg(empty), norm.neg(perm)])):
             rows["scanned"] += 1
             need = {"check_state", "show_location", "check_mode"}
+            extra = stores - need - {"use_env", "soft_boot"}
+            if extra:
+                problems.append((f"the scan request carries parameters beyond state, location, mode and the two boot switches: {sorted(extra)} (e.g. a narrowed pool scope hides states that exist in the shared pool: setup is executed again)", v))
             if not need <= stores or v.path.exit not in ("fall", "loopback", "next"):
                 problems.append((f"an object with a state to check is left out of the scan (parameters set: {sorted(stores)}, exit {v.path.exit}): its missing state goes unnoticed and the setup is skipped", v))
         else:
@@ -434,6 +437,10 @@ def pull_locations_rule(ctx: Ctx, rule: str) -> None:
             ok = elt is not None and ast.unparse(elt) == f"{wid} + ':' + setup_path" and _inside(n, wid_loop)
             if not ok:
                 problems.append(f"location added that is not '<producing worker>:<its pool path>': {first_line(n)}")
+            # every producing worker is named: nothing in the loop over the producers filters them
+            filt = [x for x in ast.walk(wid_loop) if isinstance(x, (ast.If, ast.Continue, ast.Break, ast.IfExp))]
+            if filt:
+                problems.append(f"the pool of a producing worker is named only under a condition (line {filt[0].lineno}): a test whose state only that worker holds is not told where to fetch it")
         else:
             problems.append(f"location list modified by an unmodelled call: {first_line(n)}")
     ok = not problems and n_init == 1 and n_aug == 1 and ok_path and _inside(wid_loop, node_loop) and _inside(loc_loop, node_loop)
@@ -516,6 +523,7 @@ def run(ctx: Ctx) -> None:
 
 G = "cartgraph/graph.py"
 MUTANTS = [
+    ("producer-pools-only-with-cluster-scope", NODE, "            for net_suffix in node.shared_result_worker_ids:\n                setup_locations += [net_suffix + \":\" + setup_path]", "            for net_suffix in node.shared_result_worker_ids:\n                if \"cluster\" not in self.params[\"pool_scope\"]:\n                    continue\n                setup_locations += [net_suffix + \":\" + setup_path]", "9"),
     ("location-only-if-already-listed", NODE, "                    if setup_location in self.params.get(\n                        f\"get_location{object_suffix}\", \"\"\n                    ):\n                        continue", "                    if setup_location not in self.params.get(\n                        f\"get_location{object_suffix}\", \"\"\n                    ):\n                        continue", "9g"),
     ("location-overwrites-earlier-ones", NODE, "                    if self.params.get(f\"get_location{object_suffix}\"):\n                        self.params[f\"get_location{object_suffix}\"] += (", "                    if not self.params.get(f\"get_location{object_suffix}\"):\n                        self.params[f\"get_location{object_suffix}\"] += (", "9g"),
     ("permanent-shortcut-inverted", NODE, "            if object_state == \"install\" and test_object.is_permanent():\n                should_run = False", "            if not (object_state == \"install\" and test_object.is_permanent()):\n                should_run = False", "7t"),
